@@ -26,6 +26,10 @@ def run(prog, rep, tier):
     apply(rep, "O7", "units compare equal exactly when they are the same unit", r_order.o7(prog), 2)
     apply(rep, "O6", "integer comparison agrees with mathematical order on a representative signed/unsigned domain", r_order.o6(prog), 2)
     apply(rep, "O5", "the order on whole stacks is a strict weak order with == as its equivalence", r_order.o5(prog, tier), 1)
+    import r_aset
+    h7 = r_aset.h7(prog, tier)
+    apply(rep, "O9", "address sets are totally ordered: value_aset::cmp interpreted on every pair and triple of sets over a small universe (equal iff same set, antisymmetric, transitive)",
+          h7 if getattr(h7, "broken", None) else ([i for i in h7[0] if i[0] == "H7:value_aset::cmp"], [f for f in h7[1] if f["key"] == "H7:value_aset::cmp"]), 1)
     apply(rep, "O4", "all relational operators and compare<T> agree with operator<; arithmetic by value, unrelated domains never equal", r_order.o4(prog, tier), 7)
     rep.assumptions.append("abstract domain of O3: domains {null, 2-3 arithmetic, 2 unrelated named, 2-3 named sharing a sub-domain for values < 2}, values {0,1,(2),3}, all address orders of the domains involved in a triple")
     maybe_mutants("C09", rep, tier)
